@@ -373,10 +373,11 @@ def sweep_int(x):
 # ---------------------------------------------------------------------------- value summaries
 class Choice:
     """guarded set of python leaf values:  [(Bit|1 guard, value)], guards mutually exclusive and exhaustive"""
-    __slots__ = ("alts",)
+    __slots__ = ("alts", "origin")
 
-    def __init__(self, alts):
+    def __init__(self, alts, origin=None):
         self.alts = alts
+        self.origin = origin      # the symbolic value an Enum(value) look-up was made with: member.value IS that value under each guard
 
     @staticmethod
     def make(alts):
@@ -426,7 +427,8 @@ class Choice:
         r = disj(g for g, v in self.alts if v)
         return r if r.__class__ is Bit else bool(r)
 
-    __hash__ = None
+    def __hash__(self):
+        return 0x53594D           # like every symbolic value: keyed containers compare by == and fork on the answer
 
     def force(self):
         for g, v in self.alts[:-1]:
@@ -437,6 +439,18 @@ class Choice:
     def __getattr__(self, name):
         if name.startswith("__"):
             raise AttributeError(name)
+        if (name == "value" or name == "_value_") and self.origin is not None:
+            return self.origin
+        # members of one Enum class: run the (python-level) method ONCE with the merged value as self, so that self.value is the
+        # original symbolic value (exact under every guard) instead of a multiplexer over the members' constants
+        if self.origin is not None:
+            cls0 = type(self.alts[0][1])
+            if isinstance(self.alts[0][1], enum.Enum) and all(type(v) is cls0 for _, v in self.alts):
+                import types as _types
+                fn = cls0.__dict__.get(name)
+                if isinstance(fn, _types.FunctionType):
+                    me = self
+                    return lambda *a, **k: fn(me, *a, **k)
         vals = [(g, getattr(v, name)) for g, v in self.alts]
         if all(callable(x) for _, x in vals):
             def dist(*a, **k):
@@ -507,7 +521,10 @@ def enum_lookup(cls, value):
             return enum.Enum.__new__(cls, value) if False else _enum_missing(cls, value)
     elif miss:
         return _enum_missing(cls, value)
-    return Choice.make(alts)
+    r = Choice.make(alts)
+    if r.__class__ is Choice:
+        r.origin = value
+    return r
 
 
 def _enum_missing(cls, value):
